@@ -237,7 +237,7 @@ func (e *Executor) RunTask(ctx context.Context, call *Call) error {
 
 		for i := range t.Cmds {
 			if t.Cmds[i].Defer {
-				defer e.runDeferred(t, call, i, &deferredExitCode)
+				defer e.runDeferred(ctx, t, call, i, &deferredExitCode)
 				continue
 			}
 
@@ -310,8 +310,10 @@ func (e *Executor) runDeps(ctx context.Context, t *ast.Task) error {
 	return g.Wait()
 }
 
-func (e *Executor) runDeferred(t *ast.Task, call *Call, i int, deferredExitCode *uint8) {
-	ctx, cancel := context.WithCancel(context.Background())
+func (e *Executor) runDeferred(ctx context.Context, t *ast.Task, call *Call, i int, deferredExitCode *uint8) {
+	// A deferred command runs whether or not the task was cancelled, but it
+	// is still part of the calls (and deduplicated executions) that led here
+	ctx, cancel := context.WithCancel(context.WithoutCancel(ctx))
 	defer cancel()
 
 	origTask, err := e.GetTask(call)
